@@ -283,38 +283,51 @@ impl<'a> Iterator for Lexer<'a> {
                                 '0' => '\0',
                                 'r' => '\r',
                                 'u' => {
-                                    if iter.next() != Some('{') {
-                                        // TODO error
-                                        continue;
-                                    }
-                                    self.l += '{'.len_utf8();
-                                    let mut i = 0;
-                                    let mut valid = true;
-                                    loop {
-                                        let Some(n) = iter.next() else {
-                                            // TODO: error in this case?
-                                            return None;
-                                        };
-                                        self.l += n.len_utf8();
-                                        if n == '}' {
-                                            // TODO: error if no number was provided.
-                                            break;
-                                        }
-                                        match n.to_digit(16) {
-                                            None => {
-                                                valid = false;
+                                    // Unicode escape of the form \u{<hex digits>}.
+                                    // We only consume characters that are part of a well formed
+                                    // escape. In particular a malformed escape never consumes the
+                                    // closing quote of the string.
+                                    let escape_start = self.l - n.len_utf8() - 1;
+                                    let mut code_point: Option<u32> = None;
+                                    let mut closed = false;
+                                    let mut lookahead = iter.clone();
+                                    if lookahead.next() == Some('{') {
+                                        iter = lookahead;
+                                        self.l += '{'.len_utf8();
+                                        code_point = Some(0);
+                                        loop {
+                                            let mut lookahead = iter.clone();
+                                            match lookahead.next() {
+                                                Some('}') => {
+                                                    iter = lookahead;
+                                                    self.l += '}'.len_utf8();
+                                                    closed = true;
+                                                    break;
+                                                }
+                                                Some(n) if n.is_ascii_hexdigit() => {
+                                                    iter = lookahead;
+                                                    self.l += n.len_utf8();
+                                                    let d = n.to_digit(16).expect("n is a hex digit");
+                                                    code_point = code_point
+                                                        .and_then(|i| i.checked_mul(16))
+                                                        .and_then(|i| i.checked_add(d));
+                                                }
+                                                _ => break,
                                             }
-                                            Some(d) => {
-                                                i = i * 16 + d;
-                                            }
                                         }
                                     }
-                                    if !valid {
-                                        // TODO: error
-                                        continue;
-                                    }
-                                    let Some(c) = char::from_u32(i) else {
-                                        // TODO: error
+                                    let c = match (closed, code_point) {
+                                        (true, Some(i)) => char::from_u32(i),
+                                        _ => None,
+                                    };
+                                    let Some(c) = c else {
+                                        self.errs.add(Error::UnknownEscapeSequence {
+                                            sequence: Str {
+                                                value: self.s,
+                                                start: escape_start,
+                                                end: self.l,
+                                            },
+                                        });
                                         continue;
                                     };
                                     c
